@@ -45,6 +45,11 @@ ASSUMPTIONS = [
     'theorems; monitored by finite differences on the Cn objects themselves (tags monitor:*): thermo 0.6.1 violates the J-law '
     'numerically for several liquid polynomial fits (catastrophic cancellation), see known finding dS/dT:external-J-precision',
     'the integrals the model wires are the values measured by the adapter on the same Cn objects (table, exact bit patterns)',
+    'inputs of the model taken from the real chemical (parameters, not recomputed): Tm, Tb, Hfus, S0 (database values), Hvap(Tb) '
+    '(external correlation), bool(Cn.<phase>); Sfus is DERIVED by the model (`init … auto` = initSfus Hfus Tm) for every chemical built by '
+    '_init_data and not modified since (db, ctor, lock, copy, set without Tm) and is an input only for blank chemicals and after the Tm setter',
+    'mix / mixS / xsum lines carry the real pure-component values as parameters; the model re-adds them. The independent check is the '
+    'oracle (mixture value vs the chemicals\' own H/S/Cn called separately, per phase for the multi-phase functions)',
     'the excess functors themselves (equation of state) are not modelled: with include_excess_energies the per-chemical excess values are parameters recorded from the real chemicals; force_gas_critical_phase is modelled as the phase override it is',
     'universe of bundled chemicals = those of a fixed candidate list whose Cn (s, l, g), Tm, Tb, Hvap(Tb), Hfus are all available',
     'Python float arithmetic vs Lean Float: same IEEE operations in the same order; values compared with rtol 1e-9 (sum() is compensated in 3.12)',
@@ -59,10 +64,11 @@ CANDIDATES = ['Water', 'Ethanol', 'Methanol', 'Propanol', 'Butanol', 'Benzene', 
               'DiethylEther', 'Chloroform', 'Acetaldehyde', 'LacticAcid', 'Octanol', 'Decane', 'Dodecane', 'o-Xylene',
               'Styrene', 'Isopropanol', 'Isobutanol', 'SO2', 'H2S', 'Argon', 'CO', 'H2', 'HCl', 'Acetonitrile',
               'Tetrahydrofuran', 'DMSO', 'EthyleneGlycol']
+XPHASES = [('l', 'g'), ('s', 'l'), ('s', 'l', 'g'), ('l', 'L'), ('L', 'g', 's'), ('g', 's'), ('l', 'L', 'g'), ('S', 'l')]
 RESET_KINDS = ('Tb', 'Tm', 'phase_ref', 'reset')
 LOCK_ROUTES = ['ctor', 'inplace', 'copy', 'copy', 'copyof', 'copyof-inplace', 'relock']
 LOCK_GRID_IDS = ['Water', 'Ethanol', 'CO2', 'Benzene', 'Glycerol']
-MIX_IDS = ['Water', 'Ethanol', 'Methanol', 'Glycerol', 'Propane', 'N2']
+MIX_IDS = ['Water', 'Ethanol', 'Methanol', 'Glycerol', 'Propane', 'N2', 'Octanol', 'Benzene', 'CO2', 'AceticAcid', 'Hexane', 'Ammonia']
 
 tmo = None
 TDP = None
@@ -77,11 +83,36 @@ R = None
 # --------------------------------------------------------------------------
 # translator hook
 # --------------------------------------------------------------------------
+GEN = core.LEAN / 'ThermoVerif' / 'Generated' / 'FreeEnergy.lean'
+_RESTORE = {}
+
+
+def _sync_generated(build_driver):
+    """Translate the CURRENT thermosteam/free_energy.py (core.REPO honours VERIF_REPO) into Generated/FreeEnergy.lean and
+    make sure the compiled driver is the one of that text.  When the run is against another tree than /repo
+    (VERIF_REPO) the previous text of the shared file is put back when the process exits (lake notices the changed
+    hash and rebuilds on the next run)."""
+    import atexit, os, subprocess
+    from harness import translate_free_energy as tr
+    before = GEN.read_text(encoding='utf-8') if GEN.exists() else None
+    changed = tr.translate(core.REPO, GEN)
+    if changed and before is not None and os.environ.get('VERIF_REPO') and 'text' not in _RESTORE:
+        _RESTORE.update(text=before, pid=os.getpid())
+        def restore():
+            if os.getpid() == _RESTORE['pid']:
+                tmp = GEN.with_suffix('.lean.tmp'); tmp.write_text(_RESTORE['text'], encoding='utf-8'); tmp.replace(GEN)
+        atexit.register(restore)
+    if build_driver:
+        r = subprocess.run(['lake', 'build', 'driver'], cwd=core.LEAN, stdout=subprocess.PIPE, stderr=subprocess.STDOUT, text=True)
+        if r.returncode != 0:
+            raise RuntimeError('lake build driver failed after translating free_energy.py: ' + r.stdout[-800:])
+    return changed
+
+
 def prebuild():
     """Regenerate lean/ThermoVerif/Generated/FreeEnergy.lean from the CURRENT thermosteam/free_energy.py
     (core.REPO honours VERIF_REPO).  Raises on anything outside the accepted grammar → broken obligation."""
-    from harness import translate_free_energy as tr
-    tr.translate(core.REPO, core.LEAN / 'ThermoVerif' / 'Generated' / 'FreeEnergy.lean')
+    _sync_generated(build_driver=False)
 
 
 def setup():
@@ -92,6 +123,15 @@ def setup():
     tmo, TDP, FE = tmo_, TDependentProperty, free_energy
     R = tmo.constants.R
     warnings.simplefilter('ignore')
+    # also on the paths of main.py that do not call prebuild() or do not rebuild the driver (--replay, --no-lean): the
+    # generated definitions and the driver executable are those of the tree under test.  A translation failure is
+    # reported by prebuild() as a broken obligation; here it must not stop the run.
+    import multiprocessing
+    if multiprocessing.current_process().name == 'MainProcess':
+        try:
+            _sync_generated(build_driver=True)
+        except Exception:
+            pass
     UNIVERSE[:] = []
     for ID in CANDIDATES:
         try:
@@ -155,8 +195,10 @@ def ptok(t):
 
 def get_chem(spec):
     """spec: tuple of tokens after `chem`."""
+    nocache = any(tok.startswith(('Tref=', 'Href=')) for tok in spec)      # built under temporary reference conditions
+    spec = tuple(tok for tok in spec if not tok.startswith(('Tref=', 'Href=')))
     key = tuple(spec)
-    if key in _CHEMS: return _CHEMS[key]
+    if key in _CHEMS and not nocache: return _CHEMS[key]
     kind = spec[0]
     if kind == 'db':
         c = tmo.Chemical(spec[1], phase_ref=spec[2], cache=False)
@@ -218,6 +260,7 @@ def get_chem(spec):
         c.S0 = S0
     else:
         raise ValueError('unknown chem spec ' + ' '.join(spec))
+    if nocache: return c
     if len(_CHEMS) > 400: _CHEMS.clear()
     _CHEMS[key] = c
     return c
@@ -286,8 +329,13 @@ def hvap_at_tb(c):
 
 class Session:
     """one real chemical and the protocol lines describing it"""
-    def __init__(self, c):
+    def __init__(self, c, spec=()):
         self.c = c
+        # was the chemical built by `_init_data` and were Tm / Hfus / Sfus left alone since?  Then Sfus must be Hfus/Tm
+        # and the MODEL derives it (`init … auto`); otherwise (Tm moved by the setter, blank chemical with its own Sfus)
+        # the stored value is the user's and is passed as an input
+        kind = spec[0] if spec else ''
+        self.sfus_auto = kind in ('db', 'ctor', 'lock', 'copy') or (kind == 'set' and spec[3] == '-')
         self.cns = cn_objects(c)
         self.sent = set()
         self.cnname = {id(o): 'Cn.' + p for p, o in self.cns.items()}
@@ -325,7 +373,7 @@ class Session:
             has = [bool(getattr(c.Cn, p)) for p in 'slg']
         return ('init %s %s %d %d %d %s %s %s %s %s %s' % (
             c.phase_ref, c.locked_state or '-', has[0], has[1], has[2], ftok(c.Tm), ftok(c.Tb), ftok(c.Hfus),
-            ftok(c.Sfus), ftok(hvap_at_tb(c)), ftok(c.S0)))
+            'auto' if self.sfus_auto else ftok(c.Sfus), ftok(hvap_at_tb(c)), ftok(c.S0)))
 
     def init_answer(self):
         c = self.c
@@ -461,7 +509,7 @@ class Oracle:
                 if canon(lab) == c.phase_ref and not c.locked_state: self.ref(lab)
             ph = c.phase_ref
         h = self.val('H', ph, c.T_ref, c.P_ref)
-        if h is not None and not abs(h - c.H_ref) <= 1e-9:
+        if h is not None and not abs(h - c.H_ref) <= 1e-9 * max(1.0, abs(c.H_ref)):
             self.fail('ref-state:H', f'H({ph!r}, T_ref, P_ref) = {h!r}, expected H_ref = {c.H_ref!r}')
         s = self.val('S', ph, c.T_ref, c.P_ref)
         if s is not None and not abs(s - c.S0) <= 1e-9 * max(1.0, abs(c.S0)):
@@ -489,10 +537,12 @@ class Oracle:
                 d = s.value(kind, ph, T2, P) - s.value(kind, ph, T, P)
                 i12 = float(intm(T, T2))
                 scale = max(abs(s.value(kind, ph, T2, P)), abs(s.value(kind, ph, T, P)), abs(i12))
-                # additivity defect of the Cn object itself over the reference temperatures (HeatCap-law monitor)
+                # the functor's own lower bound is one of T_ref, Tm, Tb: H(T2) - H(T) must be I(a, T2) - I(a, T) for one of them
+                # exactly (no allowance for the Cn object's additivity defect: that would mask errors of thermosteam's part)
+                cand = [float(intm(x, T2)) - float(intm(x, T)) for x in s.bounds()]
                 add = max(abs(float(intm(x, T)) + i12 - float(intm(x, T2))) for x in s.bounds())
                 if add > 1e-9 * scale: self.tags.append(f'monitor:{law}-additivity-defect:' + str(Cn.method))
-                if not abs(d - i12) <= 1e-9 * scale + 4 * add:
+                if not any(abs(d - x) <= 1e-9 * scale for x in cand + [i12]):
                     self.fail(f'd{kind}/dT:{ph}:not-the-integral-of-Cn.{ph}',
                               f'{kind}({ph!r},{T2}) - {kind}({ph!r},{T}) = {d!r} but Cn.{ph} integrates to {i12!r}')
                     continue
@@ -525,7 +575,7 @@ class Oracle:
                     sig = 'gas-entropy:pressure-term' if (kind == 'S' and ph == 'g') else f'pressure-dependence:{kind}.{ph}'
                     self.fail(sig, f'{kind}({ph!r},{T},{P2}) - {kind}({ph!r},{T},{P1}) = {v2 - v1!r}, expected {exp!r}')
 
-    def jump(self, which):
+    def jump(self, which, P=None):
         c = self.c
         if c.locked_state: return
         if which == 'Tb':
@@ -537,7 +587,8 @@ class Oracle:
             dH = c.Hfus
             dS = None if (dH is None or not Tt) else dH / Tt
         if not Tt or dH is None: return
-        P = c.P_ref
+        if P is None: P = c.P_ref
+        elif which == 'Tb' and dS is not None: dS = dS - R * math.log(P / c.P_ref)      # gas entropy at another pressure
         a, b = self.val('H', hi, Tt, P), self.val('H', lo, Tt, P)
         if a is not None and b is not None:
             if not rel_ok(a - b, dH, max(abs(a), abs(b)), 1e-9):
@@ -545,9 +596,11 @@ class Oracle:
         a, b = self.val('S', hi, Tt, P), self.val('S', lo, Tt, P)
         if a is not None and b is not None:
             if not rel_ok(a - b, dS, max(abs(a), abs(b)), 1e-9):
-                if which == 'Tm' and c.Sfus is not None and rel_ok(a - b, c.Sfus, max(abs(a), abs(b)), 1e-9):
-                    # the jump is the stored Sfus but Sfus is not Hfus/Tm: stale after a setter (user's own value)
-                    self.tags.append('Sfus-not-Hfus/Tm')
+                if which == 'Tm' and not self.s.sfus_auto and c.Sfus is not None \
+                        and rel_ok(a - b, c.Sfus, max(abs(a), abs(b)), 1e-9):
+                    # Tm was moved through the setter, or a blank chemical was given its own Sfus: the jump is the stored
+                    # Sfus, which is the user's value (outside the property's quantifier; see fixes_proposed/C07-5.md)
+                    self.tags.append('Sfus-not-Hfus/Tm:setter-modified')
                 else:
                     self.fail(f'jump:{which}:S', f'S({hi!r},{which}) - S({lo!r},{which}) = {a - b!r}, expected {dS!r}')
 
@@ -658,14 +711,28 @@ def run_mix(t, emit, failures, tags, idx):
             vkn = float(call['S'](kn))
             if not abs(vkn - k * v) <= 1e-9 * abs(k) * (scale + abs(v)):
                 fail('mixture-S:not-extensive', f'S({k} n) = {vkn!r} but {k} S(n) = {k * v!r}')
-    # multi-phase: xH, xS over (l: n, g: m)
-    if ph in 'lgL' and pure['H'] is not None:
+    # multi-phase: xH, xS, xCn over a phase set (two or three phases; solid and the alias labels included)
+    if pure['H'] is not None:
+        phs = XPHASES[int(abs(k) * 7 + len(n)) % len(XPHASES)]
+        mols = [n, m, nm][:len(phs)]
+        tags.append('xphases:' + ''.join(phs))
         try:
-            pm = [('l', np.array(n)), ('g', np.array(m))]
-            parts = [float(mix.H('l', np.array(n), T, P)), float(mix.H('g', np.array(m), T, P))]
-            emit(f'xsum {csv(parts)}', fbits(float(mix.xH(pm, T, P))))
-            parts = [float(mix.S('l', np.array(n), T, P)), float(mix.S('g', np.array(m), T, P))]
-            emit(f'xsum {csv(parts)}', fbits(float(mix.xS(pm, T, P))))
+            pm = [(q, np.array(v)) for q, v in zip(phs, mols)]
+            pv = {q: {kd: [float(pure_value(c, kd, canon(q), T, P)) for c in chems] for kd in ('H', 'Cn')} for q in phs}
+            for kd, fx, f1 in (('H', lambda: mix.xH(pm, T, P), lambda q, v: mix.H(q, np.array(v), T, P)),
+                               ('S', lambda: mix.xS(pm, T, P), lambda q, v: mix.S(q, np.array(v), T, P)),
+                               ('Cn', lambda: mix.xCn(pm, T), lambda q, v: mix.Cn(q, np.array(v), T))):
+                parts = [float(f1(q, v)) for q, v in zip(phs, mols)]
+                tot_x = float(fx())
+                emit(f'xsum {csv(parts)}', fbits(tot_x))
+                count += 1
+                if kd == 'S': continue            # each single-phase S is checked by `mixS`; the mixing term is the known finding
+                # independent expectation: sum over phases and chemicals of n * pure value of that phase
+                exp = math.fsum(x * y for q, v in zip(phs, mols) for x, y in zip(v, pv[q][kd]))
+                sc = math.fsum(abs(x * y) for q, v in zip(phs, mols) for x, y in zip(v, pv[q][kd])) + 1e-12
+                if not abs(tot_x - exp) <= 1e-9 * sc:
+                    fail(f'multiphase-x{kd}:not-the-sum-over-phases',
+                         f'x{kd} over phases {phs} = {tot_x!r} but sum over phases and chemicals of n_i {kd}_i(phase) = {exp!r}')
         except TypeError:
             tags.append('mix-skip:x')
     # real streams: mixing at equal T and P never lowers S
@@ -846,6 +913,20 @@ def mixing_sign_explains(n, m, dS):
 # the adapter
 # --------------------------------------------------------------------------
 def run_ops(ops):
+    # a blank chemical may be built under other reference conditions: `… Tref=<x> Href=<y>` at the end of its spec sets the
+    # class attributes Chemical.T_ref / H_ref for the duration of the case (they are read by _init_energies and by the oracle)
+    over = {k: float(v) for k, _, v in (tok.partition('=') for tok in (ops[0].split(' ') if ops else [])) if k in ('Tref', 'Href')}
+    if not over: return _run_ops(ops)
+    old = (tmo.Chemical.T_ref, tmo.Chemical.H_ref)
+    try:
+        if 'Tref' in over: tmo.Chemical.T_ref = over['Tref']
+        if 'Href' in over: tmo.Chemical.H_ref = over['Href']
+        return _run_ops(ops)
+    finally:
+        tmo.Chemical.T_ref, tmo.Chemical.H_ref = old
+
+
+def _run_ops(ops):
     model_in, outs, failures, tags = [], [], [], []
     def emit(line, ans):
         model_in.append(line); outs.append(ans)
@@ -856,7 +937,8 @@ def run_ops(ops):
         t = line.split(' ')
         op = t[0]
         if op == 'chem':
-            sess = Session(get_chem(tuple(t[1:])))
+            sess = Session(get_chem(tuple(t[1:])), tuple(t[1:]))
+            if any(tok.startswith('Tref=') for tok in t): tags.append('reference-conditions-varied')
             tags.append('chem:' + t[1] + ':' + (sess.c.locked_state and 'locked' or sess.c.phase_ref))
             if t[1] == 'copy': tags.append(f'copy-history:{t[4]}:{t[5]}')
             if t[1] == 'lock': tags.append('lock-route:' + (t[4] if len(t) > 4 else 'ctor') + ':' + t[3])
@@ -883,8 +965,8 @@ def run_ops(ops):
             elif op == 'o:deriv': o.deriv(sess.c.locked_state or t[1], float(t[2]), float(t[3]))
             elif op == 'o:press': o.press(float(t[1]), float(t[2]), float(t[3]))
             elif op == 'o:alias': o.alias(float(t[1]), float(t[2]))
-            elif op == 'o:jumpTb': o.jump('Tb')
-            elif op == 'o:jumpTm': o.jump('Tm')
+            elif op == 'o:jumpTb': o.jump('Tb', float(t[1]) if len(t) > 1 else None)
+            elif op == 'o:jumpTm': o.jump('Tm', float(t[1]) if len(t) > 1 else None)
             else: raise ValueError('unknown op ' + line)
             oracle_evals += o.count
         elif op == 'sfus':
@@ -895,6 +977,11 @@ def run_ops(ops):
             if tm is not None: kw['Tm'] = tm
             c = tmo.Chemical(ID, cache=False, **kw)
             emit(f'sfus {ftok(c.Hfus)} {ftok(c.Tm)}', ftok(c.Sfus))
+            oracle_evals += 1
+            if c.Tm and c.Hfus is not None and not (c.Sfus is not None and rel_ok(c.Sfus, c.Hfus / c.Tm, c.Hfus / c.Tm, 1e-12)):
+                failures.append({'signature': 'Sfus:not-Hfus/Tm', 'op_index': idx(),
+                                 'what': f'{describe(c)} built with constructor arguments Hfus={h}, Tm={tm}: Sfus = {c.Sfus!r} '
+                                         f'but Hfus / Tm = {c.Hfus / c.Tm!r}'})
         elif op == 'phaseref':
             # _set_phase_ref: default reference phase = phase at T_ref
             if t[1] == 'db':
@@ -1087,6 +1174,7 @@ def oracle_ops(rng, c):
     ops.append(f'o:press {rnd_T(rng, c, phases[-1])} {rnd_P(rng)} {rnd_P(rng)}')
     if not c.locked_state:
         ops += ['o:jumpTb', 'o:jumpTm']
+        if rng.random() < 0.5: ops += [f'o:jumpTb {rnd_P(rng)}', f'o:jumpTm {rnd_P(rng)}']    # jumps at another pressure
         lab = rng.choice('LS')
         ops.append(f'o:deriv {lab} {rnd_T(rng, c, canon(lab))} {rnd_P(rng)}')
         ops.append(f'o:alias {rnd_T(rng, c, "l")} {rnd_P(rng)}')
@@ -1134,6 +1222,8 @@ def gen_chem_case(rng):
         tm = 'none' if rng.random() < 0.04 else repr(Tm)
         tb = 'none' if rng.random() < 0.04 else repr(Tb)
         spec = f'synth {ref} {tm} {tb} {Hfus!r} {Sfus} {Hvap} {S0!r} {coef(rng)} {coef(rng)} {coef(rng)}'
+        if rng.random() < 0.3:
+            spec += f' Tref={rng.choice([273.15, 300.0, round(rng.uniform(200, 400), 2)])} Href={rng.choice([0.0, 1000.0, -52000.5])}'
     ops = ['chem ' + spec]
     c = get_chem(tuple(spec.split(' ')))
     ops.append('wiring')
@@ -1192,7 +1282,9 @@ def gen_mix_case(rng):
     k = rng.randrange(2, 7)
     pool = MIX_IDS
     ids = rng.sample(pool, min(k, len(pool)))
-    if rng.random() < 0.3: ids.append(rng.choice(['Glucose:s', 'CO2:g']))
+    if rng.random() < 0.3:
+        extra = rng.choice(['Glucose:s', 'CO2:g', 'Argon:g'])
+        if extra.split(':')[0] not in ids: ids.append(extra)
     ph = rng.choice('llggsLLS')
     T = round(rng.uniform(260, 480), 1)
     P = rnd_P(rng)
@@ -1218,6 +1310,16 @@ def gen_mixupd_case(rng):
     amount = rng.choice([500.0, -250.0, round(rng.uniform(100, 5000), 1)])
     k = rng.choice([2.0, 0.5, 3.5])
     return Case([f'mixupd {",".join(ids)} {ph} {T} {P} {",".join(map(repr, n))} {kind} {j} {amount} {k}'], {})
+
+
+def gen_sfus_case(rng):
+    ID = rng.choice(UNIVERSE)
+    base = get_chem(('db', ID, get_chem_default_ref(ID)))
+    q = rng.random()
+    h = 'none' if q < 0.4 else repr(round(base.Hfus * rng.uniform(0.5, 1.5), 1) if rng.random() < 0.8 else 0.0)
+    q = rng.random()
+    tm = 'none' if q < 0.4 else repr(round(base.Tm * rng.uniform(0.7, 1.3), 2))
+    return Case([f'sfus {ID} {h} {tm}'], {})
 
 
 def generate(rng, tier, index, nworkers):
@@ -1249,6 +1351,7 @@ def generate(rng, tier, index, nworkers):
             tm = rng.choice(['none', '0.0', '298.15', repr(round(rng.uniform(100, 500), 2))])
             tb = rng.choice(['none', '0.0', '298.15', repr(round(rng.uniform(100, 500), 2))])
             yield Case([f'phaseref blank {tm} {tb}'], {})
+        elif r < 0.06: yield gen_sfus_case(rng)
         elif r < 0.55: yield gen_chem_case(rng)
         elif r < 0.73: yield gen_fn_case(rng)
         elif r < 0.80: yield gen_mixupd_case(rng)
